@@ -17,9 +17,19 @@ type Cache struct {
 
 // clientEntries holds entries of client details sent to the service.
 type clientEntries struct {
-	replayMap map[time.Time]replayCacheEntry
+	replayMap map[replayKey]replayCacheEntry
 	seqNumber int64
 	subKey    types.EncryptionKey
+}
+
+// replayKey identifies an authenticator of one client: its timestamp (CTime plus Cusec) and the service it was sent to.
+type replayKey struct {
+	cTime int64 // nanoseconds since the epoch
+	sName string
+}
+
+func newReplayKey(ct time.Time, sname types.PrincipalName) replayKey {
+	return replayKey{cTime: ct.UnixNano(), sName: sname.PrincipalNameString()}
 }
 
 // Cache entry tracking client time values of tickets sent to the service.
@@ -37,13 +47,12 @@ func (c *Cache) getClientEntries(cname types.PrincipalName) (clientEntries, bool
 	return ce, ok
 }
 
-func (c *Cache) getClientEntry(cname types.PrincipalName, t time.Time) (replayCacheEntry, bool) {
+func (c *Cache) getClientEntry(cname types.PrincipalName, sname types.PrincipalName, t time.Time) (replayCacheEntry, bool) {
 	verifYield("getClientEntry")
-	if ce, ok := c.getClientEntries(cname); ok {
-		verifYield("getClientEntry.second-lock")
-		c.mux.RLock()
-		defer c.mux.RUnlock()
-		if e, ok := ce.replayMap[t]; ok {
+	c.mux.RLock()
+	defer c.mux.RUnlock()
+	if ce, ok := c.entries[cname.PrincipalNameString()]; ok {
+		if e, ok := ce.replayMap[newReplayKey(t, sname)]; ok {
 			return e, true
 		}
 	}
@@ -75,34 +84,26 @@ func GetReplayCache(d time.Duration) *Cache {
 // AddEntry adds an entry to the Cache.
 func (c *Cache) AddEntry(sname types.PrincipalName, a types.Authenticator) {
 	verifYield("AddEntry")
+	c.mux.Lock()
+	defer c.mux.Unlock()
+	c.addEntry(sname, a)
+}
+
+// addEntry adds an entry to the Cache. The caller must hold the write lock.
+func (c *Cache) addEntry(sname types.PrincipalName, a types.Authenticator) {
 	ct := a.CTime.Add(time.Duration(a.Cusec) * time.Microsecond)
-	if ce, ok := c.getClientEntries(a.CName); ok {
-		verifYield("AddEntry.lock-existing")
-		c.mux.Lock()
-		defer c.mux.Unlock()
-		ce.replayMap[ct] = replayCacheEntry{
-			presentedTime: time.Now().UTC(),
-			sName:         sname,
-			cTime:         ct,
-		}
-		ce.seqNumber = a.SeqNumber
-		ce.subKey = a.SubKey
-	} else {
-		verifYield("AddEntry.lock-new")
-		c.mux.Lock()
-		defer c.mux.Unlock()
-		c.entries[a.CName.PrincipalNameString()] = clientEntries{
-			replayMap: map[time.Time]replayCacheEntry{
-				ct: {
-					presentedTime: time.Now().UTC(),
-					sName:         sname,
-					cTime:         ct,
-				},
-			},
-			seqNumber: a.SeqNumber,
-			subKey:    a.SubKey,
-		}
+	ce, ok := c.entries[a.CName.PrincipalNameString()]
+	if !ok {
+		ce = clientEntries{replayMap: make(map[replayKey]replayCacheEntry)}
 	}
+	ce.replayMap[newReplayKey(ct, sname)] = replayCacheEntry{
+		presentedTime: time.Now().UTC(),
+		sName:         sname,
+		cTime:         ct,
+	}
+	ce.seqNumber = a.SeqNumber
+	ce.subKey = a.SubKey
+	c.entries[a.CName.PrincipalNameString()] = ce
 }
 
 // ClearOldEntries clears entries from the Cache that are older than the duration provided.
@@ -112,7 +113,8 @@ func (c *Cache) ClearOldEntries(d time.Duration) {
 	defer c.mux.Unlock()
 	for ke, ce := range c.entries {
 		for k, e := range ce.replayMap {
-			if time.Now().UTC().Sub(e.presentedTime) > d {
+			// An entry must be kept for as long as its timestamp would still pass the clock skew check.
+			if time.Now().UTC().Sub(e.cTime) > d {
 				delete(ce.replayMap, k)
 			}
 		}
@@ -123,15 +125,17 @@ func (c *Cache) ClearOldEntries(d time.Duration) {
 }
 
 // IsReplay tests if the Authenticator provided is a replay within the duration defined. If this is not a replay add the entry to the cache for tracking.
+// The look-up and the insert are one critical section so that concurrent presentations of the same authenticator are accepted at most once.
 func (c *Cache) IsReplay(sname types.PrincipalName, a types.Authenticator) bool {
 	verifYield("IsReplay")
 	ct := a.CTime.Add(time.Duration(a.Cusec) * time.Microsecond)
-	if e, ok := c.getClientEntry(a.CName, ct); ok {
-		if e.sName.Equal(sname) {
+	c.mux.Lock()
+	defer c.mux.Unlock()
+	if ce, ok := c.entries[a.CName.PrincipalNameString()]; ok {
+		if _, ok := ce.replayMap[newReplayKey(ct, sname)]; ok {
 			return true
 		}
 	}
-	verifYield("IsReplay.before-insert")
-	c.AddEntry(sname, a)
+	c.addEntry(sname, a)
 	return false
 }
